@@ -123,14 +123,34 @@ func discharge(o *Obligation, dir string, timeoutS int) {
 	}
 	ctx, cancel := context.WithCancel(context.Background())
 	defer cancel()
-	ch := make(chan solveResult, len(solvers))
+	nruns := len(solvers)
+	ch := make(chan solveResult, 2*len(solvers))
 	for _, s := range solvers {
 		go func(s solverSpec) { ch <- runSolver(ctx, s, timeoutS, fname) }(s)
+	}
+	// second encoding: products/quotients by symbolic multipliers as uninterpreted functions (sound abstraction)
+	if !o.Cover {
+		if uf := mulUFVariant(text); uf != "" {
+			ufFile := strings.TrimSuffix(fname, ".smt2") + ".muluf.smt2"
+			if err := os.WriteFile(ufFile, []byte(uf), 0o644); err == nil {
+				for _, s := range solvers {
+					nruns++
+					go func(s solverSpec) {
+						r := runSolver(ctx, s, timeoutS, ufFile)
+						r.solver += "+muluf"
+						if r.status == "sat" {
+							r.status = "unknown" // abstraction: a model may be spurious
+						}
+						ch <- r
+					}(s)
+				}
+			}
+		}
 	}
 	var outs []string
 	var best *solveResult
 	t0 := time.Now()
-	for range solvers {
+	for k := 0; k < nruns; k++ {
 		r := <-ch
 		outs = append(outs, fmt.Sprintf("--- %s (%.2fs): %s", r.solver, r.secs, trunc(strings.TrimSpace(r.out), 300)))
 		if r.status == "unsat" {
